@@ -3,6 +3,7 @@ import Netpol.Proofs.FormatExposure
 import Netpol.Proofs.FormatDotX
 import Netpol.Proofs.FormatEngine
 import Netpol.Proofs.FormatDiffEngine
+import Netpol.Proofs.FormatExposureEngine
 import Netpol.Properties.C09
 import Netpol.Properties.C05
 /-! C08 (format layer) — the output does not depend on the order of the computed entries.
@@ -45,9 +46,17 @@ list gives the same string — and under which hypotheses:
   `computed_diff_order_independent` / `reports_diff_order_independent` (`DiffPeersConsistent` holds of every diff
   computed by `diffConns`: the colour of a node is a function of its peer — `#008000` iff it is a workload that is absent
   from the first report's peers, `red` iff absent from the second's — `Proofs/FormatDiffEngine.lean`; what remains a
-  hypothesis is that a peer string means the same workload in both directories, `PeersOK`). -/
+  hypothesis is that a peer string means the same workload in both directories, `PeersOK`).
+* the three hypotheses of the exposure dot theorem discharged for the model's own exposure run `reportX`
+  (`Proofs/FormatExposureEngine.lean`): `reportX_peers_consistent` (as for the plain report), `reportX_exposed_visited`
+  (no hypothesis: an exposed peer is a focus workload of `ca.peersList`), `reportX_reps_consistent` (the key `POD_in_NS`
+  determines both labels whatever the namespace label is, as long as no key or value of a *pod* selector of a policy rule
+  holds a `}` — `PodSelectorsNoBrace`, decidable, implied by label syntax; `_in_` inside a label value is harmless).
+  `computed_list_exposure_order_independent`: every format of the exposure run, under the input-level hypotheses
+  `PodsNotFake` and `PodSelectorsNoBrace` only. -/
+open List
 namespace Netpol.Properties.C08.Format
-open Netpol Netpol.Format Netpol.Engine List
+open Netpol Netpol.Format Netpol.Engine
 
 -- ------------------------------------------------------------------------------------------
 -- list
@@ -236,6 +245,74 @@ theorem reports_diff_order_independent (f ref1 ref2 : String) {objs1 objs2 : Lis
     {ds' : List DConn} (h : diffConns r1.entries r2.entries r1.peers r2.peers ~ ds') :
     diffToString f ref1 ref2 (diffConns r1.entries r2.entries r1.peers r2.peers) = diffToString f ref1 ref2 ds' :=
   diff_order_independent f ref1 ref2 (reports_diff_peers_consistent h1 h2 hW) h
+
+-- ------------------------------------------------------------------------------------------
+-- the hypotheses of the exposure dot theorem discharged for the model's own exposure run
+
+/-- peer strings determine the peers of the exposure run (ingress-controller lines included) -/
+theorem reportX_peers_consistent {objs : List Obj} {focus : String} {stop : Bool} {r : Report} {xs : List XPeerF}
+    (h : reportX objs focus stop = .ok (r, xs)) (hf : DiffComputed.PodsNotFake objs) :
+    PeersConsistent (r.entries.map Conn.ofEntry) (r.dotPeers.map PeerInfo.ofLPeer) :=
+  Netpol.Format.reportX_peers_consistent h (reportX_peers_not_ic h hf)
+
+/-- every exposed peer of the exposure run was visited for the connections part — no hypothesis -/
+theorem reportX_exposed_visited {objs : List Obj} {focus : String} {stop : Bool} {r : Report} {xs : List XPeerF}
+    (h : reportX objs focus stop = .ok (r, xs)) :
+    ExposedVisited (r.entries.map Conn.ofEntry) (r.dotPeers.map PeerInfo.ofLPeer) xs :=
+  Netpol.Format.reportX_exposed_visited h
+
+/-- representative-peer strings determine the representative peers of the exposure run -/
+theorem reportX_reps_consistent {objs : List Obj} {focus : String} {stop : Bool} {r : Report} {xs : List XPeerF}
+    (h : reportX objs focus stop = .ok (r, xs)) (hs : PodSelectorsNoBrace objs) : RepsConsistent xs :=
+  Netpol.Format.reportX_reps_consistent h hs
+
+/-- **dot with exposure results, on the computed exposure run** (the arguments `runWFmt` hands to `listToStringX`): the
+output does not depend on the order of the lines, of the peers handed to the dot formatter, and of the exposed peers.
+`PodsNotFake`: no pod of the input carries the analyzer's own `fake` mark (the parser never sets it);
+`PodSelectorsNoBrace`: no `}` in a key or value of a pod selector of a policy rule (label syntax). -/
+theorem computed_list_exposure_dot_order_independent {objs : List Obj} {focus : String} {stop : Bool} {r : Report}
+    {xs : List XPeerF} (h : reportX objs focus stop = .ok (r, xs)) (hf : DiffComputed.PodsNotFake objs)
+    (hs : PodSelectorsNoBrace objs) {entries' : List Entry} {dotPeers' : List LPeer} {xs' : List XPeerF}
+    (hperm : r.entries ~ entries') (hperm' : r.dotPeers ~ dotPeers') (hx : xs ~ xs') :
+    listToStringX "dot" (r.entries.map Conn.ofEntry) (r.dotPeers.map PeerInfo.ofLPeer) xs =
+      listToStringX "dot" (entries'.map Conn.ofEntry) (dotPeers'.map PeerInfo.ofLPeer) xs' :=
+  list_exposure_dot_order_independent (reportX_peers_consistent h hf) (reportX_exposed_visited h)
+    (reportX_reps_consistent h hs) (hperm.map _) (hperm'.map _) hx
+
+/-- … and also of the order of the exposure entries *inside* an exposed peer (the representative peers are kept in a Go
+map): any `xs'` with the same items whose peers were visited -/
+theorem computed_list_exposure_dot_items_independent {objs : List Obj} {focus : String} {stop : Bool} {r : Report}
+    {xs : List XPeerF} (h : reportX objs focus stop = .ok (r, xs)) (hf : DiffComputed.PodsNotFake objs)
+    (hs : PodSelectorsNoBrace objs) {entries' : List Entry} {dotPeers' : List LPeer} {xs' : List XPeerF}
+    (hperm : r.entries ~ entries') (hperm' : r.dotPeers ~ dotPeers')
+    (hv' : ExposedVisited (entries'.map Conn.ofEntry) (dotPeers'.map PeerInfo.ofLPeer) xs')
+    (hx : exposureItems xs ~ exposureItems xs') :
+    listToStringX "dot" (r.entries.map Conn.ofEntry) (r.dotPeers.map PeerInfo.ofLPeer) xs =
+      listToStringX "dot" (entries'.map Conn.ofEntry) (dotPeers'.map PeerInfo.ofLPeer) xs' := by
+  have e : ∀ (c : List Conn) (p : List PeerInfo) (xs : List XPeerF), listToStringX "dot" c p xs = listDotX c p xs := by
+    intro c p xs; simp [listToStringX]
+  rw [e, e]
+  exact listDotX_perm_items (reportX_peers_consistent h hf) (reportX_exposed_visited h) hv'
+    (reportX_reps_consistent h hs) (hperm.map _) (hperm'.map _) hx
+
+/-- **every format of the computed exposure run** (any format name: unknown names print txt) -/
+theorem computed_list_exposure_order_independent (f : String) {objs : List Obj} {focus : String} {stop : Bool}
+    {r : Report} {xs : List XPeerF} (h : reportX objs focus stop = .ok (r, xs)) (hf : DiffComputed.PodsNotFake objs)
+    (hs : PodSelectorsNoBrace objs) {entries' : List Entry} {dotPeers' : List LPeer} {xs' : List XPeerF}
+    (hperm : r.entries ~ entries') (hperm' : r.dotPeers ~ dotPeers') (hx : xs ~ xs') :
+    listToStringX f (r.entries.map Conn.ofEntry) (r.dotPeers.map PeerInfo.ofLPeer) xs =
+      listToStringX f (entries'.map Conn.ofEntry) (dotPeers'.map PeerInfo.ofLPeer) xs' := by
+  by_cases hd : f = "dot"
+  · subst hd; exact computed_list_exposure_dot_order_independent h hf hs hperm hperm' hx
+  · exact list_exposure_order_independent f hd _ _ (hperm.map _) hx
+
+/-- the input-level hypotheses hold of the example world `exXObjs` (`Proofs/FormatExposureEngine.lean`: two pods, a policy
+with two selector rule peers, one label value with `_in_`, one expression), so the theorem applies to every run on it -/
+example (f focus : String) {r : Report} {xs : List XPeerF} (h : reportX exXObjs focus = .ok (r, xs)) :
+    listToStringX f (r.entries.map Conn.ofEntry) (r.dotPeers.map PeerInfo.ofLPeer) xs =
+      listToStringX f (r.entries.reverse.map Conn.ofEntry) (r.dotPeers.reverse.map PeerInfo.ofLPeer) xs.reverse :=
+  computed_list_exposure_order_independent f h (by decide) (by decide) (reverse_perm _).symm (reverse_perm _).symm
+    (reverse_perm _).symm
 
 -- ------------------------------------------------------------------------------------------
 -- the hypotheses are satisfiable (the report and the diff of `Properties/C09.lean`), and needed
